@@ -78,6 +78,12 @@ ARRAY_PARAMS = {
     "validate": [TIMES, TIMES],
 }
 
+# more Lean tokens that a Python local may be called (an escaped identifier is always valid Lean)
+SI.EXTRA_KEYWORDS |= {"rec", "nonrec", "prec", "forall", "exists", "mutual", "instance", "macro_rules", "syntax", "elab_rules",
+                      "initialize", "variable", "universe", "section", "namespace", "noncomputable", "private", "protected",
+                      "prefix", "postfix", "infix", "notation", "calc", "conv", "suffices", "show", "nomatch", "nofun", "termination_by",
+                      "decreasing_by", "where", "mut", "from", "at", "in", "fun", "assume", "obtain", "rcases", "intro"}
+
 # segindex.lean_type knows no `matching`; extend it (a pure extension: the kind never arises in segindex)
 _si_lean_type = SI.lean_type
 
@@ -140,15 +146,23 @@ def param_type(fname, text, node, np_kinds):
 
 
 class Module(SI.Module):
+    modname = "multipitch"
+    WANT = {"np": "numpy", "scipy": "scipy", "util": "..util", "warnings": "warnings"}
+    REQUIRED = ("np", "scipy", "util", "warnings")
+
     def __init__(self, source):
         SI.Module.__init__(self, source)
         self.tr_funcs = set()          # no Transc-polymorphic functions here (log2 stays behind an extern)
         self.internal = set()
 
+    def translate_def(self, fn):
+        return translate_def(self, fn)
+
     def check_globals(self, node):
-        want = {"np": "numpy", "scipy": "scipy", "util": "..util", "warnings": "warnings"}
-        for nm, src in want.items():
+        for nm, src in self.WANT.items():
             got = self.imports.get(nm)
+            if got is None and nm not in self.REQUIRED and nm not in self.assigned and nm not in self.funcs:
+                continue
             if nm in self.assigned or nm in self.funcs:
                 raise Unsupported("module-level name %s is rebound" % nm, node)
             if nm == "util":
@@ -164,7 +178,7 @@ class Module(SI.Module):
             raise Unsupported("callee %s is outside the subset (%s)" % (fname, self.failed[fname]), node)
         defs = self.funcs.get(fname)
         if not defs:
-            raise Unsupported("no top-level function %s in multipitch.py" % fname, node)
+            raise Unsupported("no top-level function %s in %s.py" % (fname, self.modname), node)
         if len(defs) != 1 or fname in self.assigned:
             raise Unsupported("%s is defined more than once" % fname, node)
         if fname in self.in_progress:
@@ -172,7 +186,7 @@ class Module(SI.Module):
         self.in_progress.add(fname)
         try:
             self.check_globals(defs[0])
-            sigs_lines = translate_def(self, defs[0])
+            sigs_lines = self.translate_def(defs[0])
         except Unsupported as e:
             self.failed[fname] = e.detail
             raise
@@ -304,6 +318,16 @@ class Body(SI.Body):
                 raise Unsupported("enumerate(...) without an `i, x` target", s)
             index, target, it = target.elts[0].id, target.elts[1], it.args[0]
         binds = []
+        if builtin_call(it, "zip", 1) and isinstance(it.args[0], ast.Starred):
+            # zip(*t) for a pair t of arrays / lists
+            tv = self.expr(it.args[0].value, env, binds)
+            if tv.ty[0] != "tup" or len(tv.ty[1]) != 2 or any(x[0] != "vec" for x in tv.ty[1]):
+                raise Unsupported("zip(*<%s>)" % show_type(tv.ty), s)
+            it = ast.Call(func=it.func, args=[ast.Subscript(value=it.args[0].value, slice=ast.Constant(value=0), ctx=ast.Load()),
+                                              ast.Subscript(value=it.args[0].value, slice=ast.Constant(value=1), ctx=ast.Load())],
+                          keywords=[])
+            ast.fix_missing_locations(ast.copy_location(it, s))
+            binds = []
         if builtin_call(it, "zip", 2):
             a, b = self.expr(it.args[0], env, binds), self.expr(it.args[1], env, binds)
             if a.ty[0] != "vec" or b.ty[0] != "vec":
@@ -334,8 +358,7 @@ class Body(SI.Body):
         carried = [n for n in written if n in env]
         local = [n for n in written if n not in env] + tnames + ([index] if index else [])
         for n in carried:
-            if env[n][0] != COUNTS or n not in self.fresh_arrays:
-                raise Unsupported("loop-carried %s is not a freshly allocated count array" % n, s)
+            self.check_carried(n, env, s)
         after = set()
         for st in rest:
             after |= read_names(st, set(local))
@@ -369,8 +392,8 @@ class Body(SI.Body):
             lname, "".join("(%s : %s) " % (ident(n), lean_type(env[n][0])) for n in free),
             "Nat → " if index else "", "List %s" % lean_type(item_ty), " → ".join(lean_type(t) for t in cty), cret)
         ipat = (ident(index) + ", ") if index else ""
-        lines = ["/-- the `for` loop of `multipitch.%s` at source line %d: %sremaining items, loop state %s -/" % (
-            self.fn.name, s.lineno, "index, " if index else "", ", ".join(carried)),
+        lines = ["/-- the `for` loop of `%s.%s` at source line %d: %sremaining items, loop state %s -/" % (
+            self.m.modname, self.fn.name, s.lineno, "index, " if index else "", ", ".join(carried)),
             head,
             "  | %s[], %s => pure %s" % (ipat.replace(ident(index), "_") if index else "", ", ".join(ident(n) for n in carried), ctuple),
             "  | %s%s :: rest__, %s => do" % (ipat, pat, ", ".join(ident(n) for n in carried))]
@@ -382,6 +405,10 @@ class Body(SI.Body):
         call = "let %s : %s ← %s %s%s%s %s" % (ctuple, cret, lname, free_args + " " if free else "",
                                                "(0 : Nat) " if index else "", items, cargs)
         return [call] + cont(dict(env))
+
+    def check_carried(self, n, env, s):
+        if env[n][0] != COUNTS or n not in self.fresh_arrays:
+            raise Unsupported("loop-carried %s is not a freshly allocated count array" % n, s)
 
     def if_conversion(self, s, env):
         r = SI.Body.if_conversion(self, s, env)
